@@ -211,6 +211,109 @@ def xor_attack(ctx, case, data, truth):
                         expected="a keystream of its own for every entry (salt = H(rw_uri))", observed=got or why)
 
 
+def reader_walk(ctx, case, store, root_ro, secrets, bare_secrets, truth_by_dir, real_dirs):
+    """The read-cap holder walks everything below root_ro: nothing reached may be writeable, and no write cap (or
+    writekey) of any child may occur in a node or in any byte string obtained from the directory plaintexts."""
+    from allmydata.interfaces import IDirectoryNode
+    seen_nodes = 0
+    stack = [(root_ro, [])]
+    while stack:
+        node, path = stack.pop()
+        seen_nodes += 1
+        obs = D.node_obs(node)
+        if obs[1] is not None or (obs[0] != "unknown" and not node.is_readonly()):
+            ctx.oracle_fail("descendant-of-readonly-root-is-writeable", "node at %r reached from the read-only root has write authority (%r)" % (path, obs[1]),
+                            case=dict(case, path=path), expected=None, observed=obs[1])
+        strings = [x for x in (obs[1], obs[2], node.get_uri(), repr(node).encode("utf-8", "replace")) if x]
+        if any(x in bare_secrets for x in (obs[1], obs[2], node.get_uri())):
+            ctx.oracle_fail("bare-write-cap-handed-to-read-cap-holder", "node at %r reached from the read-only root carries the write cap that was attached behind ro.ro." % (path,),
+                            case=dict(case, path=path), expected=None, observed=[obs[1], obs[2]])
+        if IDirectoryNode.providedBy(node) and node.get_readonly_uri() not in real_dirs:
+            ctx.count("dangling-directory-link")          # a random directory cap with nothing behind it on the grid
+        elif IDirectoryNode.providedBy(node):
+            if getattr(node._node, "get_writekey", lambda: None)() is not None:
+                ctx.oracle_fail("readonly-dirnode-has-writekey", "directory at %r reached read-only holds a writekey" % (path,), case=dict(case, path=path))
+            strings += reader_view(store, node)
+            bare_field_check(ctx, dict(case, path=path), dir_plaintext(store, node), bare_secrets)
+            xor_attack(ctx, dict(case, path=path), dir_plaintext(store, node), truth_by_dir.get(node.get_readonly_uri(), {}))
+            children = D.fire(node.list())
+            for name, (child, md) in children.items():
+                strings.append(dumps_md(md))
+                stack.append((child, path + [name]))
+        for sec in secrets:
+            for s_ in strings:
+                if sec in s_:
+                    ctx.oracle_fail("write-cap-visible-to-read-cap-holder", "a child write cap (or its writekey) occurs in what a read-cap holder obtains at %r" % (path,),
+                                    case=dict(case, path=path), expected="absent", observed={"secret": sec, "in": s_[:200]})
+                    break
+    return seen_nodes
+
+
+def owner_blacklist_case(ctx, i):
+    """The OWNER's gateway has an access.blacklist listing some write-cap children; it re-links them (set_metadata_for,
+    rename/move, set_node from a listing).  Afterwards a second client WITHOUT blacklist, holding only the root read
+    cap, walks the tree: nothing writeable, no write cap in what it can read -- also for the re-linked entries."""
+    import os
+    from allmydata.blacklist import Blacklist, ProhibitedNode
+    from allmydata.interfaces import IDirectoryNode
+    from core import env
+    r = ctx.rng("owner-blacklist", i)
+    tbl = D.CapTable()
+    nm, store = D.make_nodemaker(r)
+    t = Tree(ctx, r, nm, tbl)
+    root = t.build(2, r.choice(["sdmf", "mdmf"]))
+    case = {"stream": "owner-blacklist", "index": i, "dirs": t.count}
+    real_dirs = set(dn.get_readonly_uri() for (dn, kind, final) in t.dirs)
+    # storage indexes of write-cap children (files and sub-directories), some of them listed by the operator
+    cands = {}
+    for (dn, kind, final) in t.dirs:
+        for name, (n, md) in final.items():
+            if n.get_write_uri() and D.node_obs(n)[0] != "unknown" and n.get_storage_index():
+                cands[n.get_storage_index()] = n.get_write_uri()
+    listed = sorted(si for si in cands if r.random() < 0.6)
+    path_bl = os.path.join(env.subdir("c18-blacklist"), "access-%d.blacklist" % i)
+    with open(path_bl, "wb") as f:
+        for si in listed:
+            f.write(D.b32(si) + b" prohibited by the operator\n")
+    owner, _ = D.make_nodemaker(ctx.rng("owner-gw", i), store=store, blacklist=Blacklist(path_bl))
+    oroot = owner.create_from_cap(root.get_uri())
+    relinked = 0
+    ops = []
+    stack = [oroot]
+    dirs_seen = []
+    while stack:
+        dnode = stack.pop()
+        if not (IDirectoryNode.providedBy(dnode) and dnode.get_readonly_uri() in real_dirs and dnode.get_write_uri()):
+            continue
+        dirs_seen.append(dnode)
+        for name, (child, md) in sorted(D.fire(dnode.list()).items()):
+            stack.append(child)
+            if not isinstance(child, ProhibitedNode) or not child.get_write_uri():
+                continue
+            op = r.choice(["set_metadata_for", "rename", "move", "set_node-from-listing"])
+            if op == "set_metadata_for":
+                res = D.outcome(dnode.set_metadata_for(name, {"reviewed": 1}))
+            elif op == "rename":
+                res = D.outcome(dnode.move_child_to(name, dnode, D.gen_name(r) + "r"))
+            elif op == "move":
+                res = D.outcome(dnode.move_child_to(name, r.choice(dirs_seen), D.gen_name(r) + "m"))
+            else:
+                res = D.outcome(dnode.set_node(D.gen_name(r) + "c", child, {"copy": True}))
+            ops.append([op, name, res[0] if res[0] == "ok" else res[1]])
+            relinked += res[0] == "ok"
+            ctx.count("owner-blacklist-relink:" + op)
+    case["relinks"] = ops
+    case["blacklisted_storage_indexes"] = listed
+    secrets = []
+    for w in sorted(t.write_caps):
+        secrets += secrets_of(w)
+    ctx.case(("ob", root.get_uri(), tuple(map(tuple, ops))) if relinked else None, kind="owner-blacklist:%s" % ("relinked" if relinked else "nothing-to-relink"))
+    # the blacklist entry is removed again; what was written stays
+    open(path_bl, "wb").close()
+    reader, _ = D.make_nodemaker(ctx.rng("owner-blacklist-reader", i), store=store)
+    reader_walk(ctx, case, store, reader.create_from_cap(root.get_readonly_uri()), secrets, t.bare_secrets, {}, real_dirs)
+
+
 def tree_case(ctx, i, terms, info):
     r = ctx.rng("tree", i)
     tbl = D.CapTable()
@@ -224,43 +327,11 @@ def tree_case(ctx, i, terms, info):
     # ---- the read-cap holder: a second client of the same grid, knowing only the root's read cap
     nm2, _ = D.make_nodemaker(ctx.rng("tree-reader", i), store=store)
     root_ro = nm2.create_from_cap(root.get_readonly_uri())
-    seen_nodes = 0
     real_dirs = set(dn.get_readonly_uri() for (dn, kind, final) in t.dirs)
     truth_by_dir = {dn.get_readonly_uri(): {name.encode("utf-8"): n.get_write_uri() for name, (n, md) in final.items() if n.get_write_uri()}
                     for (dn, kind, final) in t.dirs}
-    stack = [(root_ro, [])]
-    visited_dirs = 0
     from allmydata.interfaces import IDirectoryNode
-    while stack:
-        node, path = stack.pop()
-        seen_nodes += 1
-        obs = D.node_obs(node)
-        if obs[1] is not None or (obs[0] != "unknown" and not node.is_readonly()):
-            ctx.oracle_fail("descendant-of-readonly-root-is-writeable", "node at %r reached from the read-only root has write authority (%r)" % (path, obs[1]),
-                            case=dict(case, path=path), expected=None, observed=obs[1])
-        strings = [x for x in (obs[1], obs[2], node.get_uri() if obs[0] != "unknown" else node.get_uri(), repr(node).encode("utf-8", "replace")) if x]
-        if any(x in t.bare_secrets for x in (obs[1], obs[2], node.get_uri())):
-            ctx.oracle_fail("bare-write-cap-handed-to-read-cap-holder", "node at %r reached from the read-only root carries the write cap that was attached behind ro.ro." % (path,),
-                            case=dict(case, path=path), expected=None, observed=[obs[1], obs[2]])
-        if IDirectoryNode.providedBy(node) and node.get_readonly_uri() not in real_dirs:
-            ctx.count("dangling-directory-link")          # a random directory cap with nothing behind it on the grid
-        elif IDirectoryNode.providedBy(node):
-            visited_dirs += 1
-            if getattr(node._node, "get_writekey", lambda: None)() is not None:
-                ctx.oracle_fail("readonly-dirnode-has-writekey", "directory at %r reached read-only holds a writekey" % (path,), case=dict(case, path=path))
-            strings += reader_view(store, node)
-            bare_field_check(ctx, dict(case, path=path), dir_plaintext(store, node), t.bare_secrets)
-            xor_attack(ctx, dict(case, path=path), dir_plaintext(store, node), truth_by_dir.get(node.get_readonly_uri(), {}))
-            children = D.fire(node.list())
-            for name, (child, md) in children.items():
-                strings.append(dumps_md(md))
-                stack.append((child, path + [name]))
-        for sec in secrets:
-            for s_ in strings:
-                if sec in s_:
-                    ctx.oracle_fail("write-cap-visible-to-read-cap-holder", "a child write cap (or its writekey) occurs in what a read-cap holder obtains at %r" % (path,),
-                                    case=dict(case, path=path), expected="absent", observed={"secret": sec, "in": s_[:200]})
-                    break
+    seen_nodes = reader_walk(ctx, case, store, root_ro, secrets, t.bare_secrets, truth_by_dir, real_dirs)
     # ---- ONE client that first walked the tree through the write cap and still holds every node object
     same_client_case(ctx, i, root, real_dirs, case)
     # ---- positive control: the write-cap holder recovers every write cap
@@ -538,6 +609,8 @@ def run(ctx):
     nwalk = len(terms)
     for i in range(ctx.n(150, 1500)):
         flat_case(ctx, i, terms, info)
+    for i in range(ctx.n(36, 500)):
+        owner_blacklist_case(ctx, i)
     known_finding_witness(ctx)
     bad = ctx.coq_check(IMPORTS, terms, preamble=PREAMBLE, tag="c18", shard=max(8, (len(terms) + 6) // 7))
     for ix in bad:
@@ -558,6 +631,8 @@ def replay(ctx, rec):
         tree_case(ctx, case["index"], terms, info)
     elif case.get("stream") == "flat":
         flat_case(ctx, case["index"], terms, info)
+    elif case.get("stream") == "owner-blacklist":
+        owner_blacklist_case(ctx, case["index"])
     elif rec.get("kind") == KNOWN_KIND:
         known_finding_witness(ctx)
         return {"witness re-executed": True, "failures": len(ctx.failures)}
